@@ -494,3 +494,6 @@ func BuildTx(spec *TxSpec, pre *PreExecResult) *pb.Transaction {
 	SignTx(tx, k)
 	return tx
 }
+
+// AddrOfRef is the address an input reference cites as the owner of the output.
+func AddrOfRef(r InRef) string { return r.addr() }
